@@ -46,7 +46,7 @@ func buildC07(e *engine, p *rt.Package) {
 	tsPort := 0
 	declChecked := false
 	for _, svc := range p.Services {
-		if svc.Register == nil || svc.NewClient == nil {
+		if svc.Register == nil {
 			continue
 		}
 		for _, m := range svc.Methods {
@@ -96,7 +96,7 @@ func buildC07(e *engine, p *rt.Package) {
 					}
 				}
 				var goClientToTS rt.Caller
-				if tsPort > 0 {
+				if tsPort > 0 && svc.NewClient != nil { // a server-only package has no Go client to call the TS server with
 					goClientToTS = svc.NewClient(fmt.Sprintf("http://127.0.0.1:%d", tsPort), rt.ClientOpts{HTTPClient: &http.Client{Timeout: 30 * time.Second}})
 				}
 				eff, ambiguous := effectiveHeaders(info.SvcHeaders, info.MethodHeaders)
